@@ -183,6 +183,10 @@ fn schema_case(i: usize) -> ModelGame {
 pub fn case(ctx: &Ctx, kind: &str, params: &Value, counting: bool) -> Result<(), Fail> {
 	match kind {
 		"schema" => check(ctx, &schema_case(params["i"].as_u64().unwrap_or(0) as usize), "schema_sweep", counting),
+		"fixture" => match fixture_model(&dna_param(params)) {
+			Some((_, m)) => check(ctx, &m, "fixture", counting),
+			None => Ok(()),
+		},
 		_ => check(ctx, &model_from_dna(&dna_param(params), &cfg_for(ctx)), "dna", counting),
 	}
 }
@@ -200,6 +204,16 @@ pub fn run(ctx: &Ctx) -> usize {
 	let cfg = cfg_for(ctx);
 	if run_dna(ctx, "dna", ctx.n(20_000, 1_000_000), dna_max(ctx), |dna, counting| check(ctx, &model_from_dna(dna, &cfg), "dna", counting)).is_some() {
 		violations += 1;
+	}
+	if fixture_count() > 0 {
+		if run_dna(ctx, "fixture", ctx.n(3_000, 150_000), 512, |dna, counting| match fixture_model(dna) {
+			Some((_, m)) => check(ctx, &m, "fixture", counting),
+			None => Ok(()),
+		})
+		.is_some()
+		{
+			violations += 1;
+		}
 	}
 	violations
 }
